@@ -204,11 +204,11 @@ def check_decrease(ctx, p, key, alww):
         neg = neg_atoms(d.nf)
         exact = not d.nf.inexact and len(d.nf.atoms) == 1 and len(neg) == 1
         amount = list(neg.keys())[0] if neg else None
-        base, _ = update_base(e.value)
-        allowance = ("field", base, "allowance")
-        # path condition must imply amount <= allowance: (amount lt allowance)=True or (amount le allowance)=True
-        # or (allowance lt amount)=False or (allowance le amount)=False
-        implied = any(lo == amount and hi == allowance for lo, hi, strict, c in order_facts(p.conds, before=i))
+        # the stored allowance of this very cell, however the new entry was put together
+        stored_allow = [a for a in walk(e.value) if a[0] == "field" and a[2] == "allowance" and loaded_from(a[1]) is not None
+                        and loaded_from(a[1])[0] == e.item and loaded_from(a[1])[1] == e.key]
+        # a path condition must imply amount <= allowance, whichever way the comparison was spelled
+        implied = any(lo == amount and hi in stored_allow for lo, hi, strict, c in order_facts(p.conds, before=i))
         ctx.ob("R02.4", key + "/subtract", bool(exact and implied), sites=[e.site],
                detail="decrease path subtracts %s without a path condition implying amount <= allowance (conds: %s)"
                       % (d.nf.show(), [(show(c[0])[:120], c[1]) for c in p.conds if c[0][0] == "cmp"]),
